@@ -145,6 +145,22 @@ CHECKS = {
         technique=TECH + 'operation histories on replicated memories under seeded interleaving, '
                   'storage_poke / reject_step faults, array-model oracle',
         design='5 C08'),
+    'C05': dict(
+        level='exploration',
+        text='Seeded search: exportable designs (all ops but nand, memories, ROMs, names needing '
+             'sanitising, Verilog keywords) exported with each add_reset option; the module text is '
+             'executed by an independent Verilog-subset interpreter (VSim) in lock-step with the '
+             'reference model from the reset state, reached directly or by an injected synchronous '
+             '/ asynchronous reset from garbage, with a second reset at a scheduler-chosen cycle; '
+             'the testbench text made from a Simulation / FastSimulation / CompiledSimulation '
+             'trace is read back and checked for input replay, register and memory start state, '
+             'and replayed end to end on VSim. Sampling, not proof.',
+        note='Trusted: VSim and the testbench reader (verifsim/vsim.py) -- no external Verilog '
+             'tool exists in the sandbox, so agreement is with IEEE 1364-2001 semantics as '
+             'implemented there; RefSim. The fault space is thin (schedules, trace source, resets).',
+        technique=TECH + 'replica agreement (emitted Verilog under an independent interpreter vs '
+                  'reference model) over cycles with injected reset events, seeded name/sort schedule',
+        design='5 C05'),
 }
 
 NOT_APPLICABLE = {
